@@ -265,8 +265,18 @@ def run(ctx):
         f = prog.one(w)
         Tw = M.Terms(f)
         lc = f.calls_to(lambda c: M.callee_str(c) == "libc::" + w.split("::")[-1])
-        ok = len(lc) == 1 and [M.strip(Tw.operand(x)) for x in lc[0][1]["args"]] == [("param", i + 1, f.local_name(i + 1)) for i in range(n)]
+        ok = len(lc) == 1 and [M.strip(Tw.operand(x)) for x in lc[0][1]["args"]] == [("param", i + 1, f.local_name(i + 1)) for i in range(n)] \
+            and all(dominated_by_blocks(f, r, [lc[0][0]]) for r in f.return_blocks())
         ctx.ob("R06.4", "%s->libc" % w, ok, f.loc(0), "%s must pass its argument(s) unchanged to libc" % w)
+    ch = prog.fn("posix::chdir")
+    if ch is not None:
+        Tch = M.Terms(ch)
+        lc = ch.calls_to(lambda c: M.callee_str(c) == "libc::chdir")
+        ok = len(lc) == 1 and M.noref(M.strip(Tch.operand(lc[0][1]["args"][0]), also=("std::ffi::CStr::as_ptr", "core::ffi::CStr::as_ptr"))) == ("param", 1, ch.local_name(1)) \
+            and all(dominated_by_blocks(ch, r, [lc[0][0]]) for r in ch.return_blocks())
+        ctx.ob("R06.4", "posix::chdir->libc", ok, ch.loc(0), "posix::chdir must call libc::chdir on its argument on every path")
+    elif not site("std::env::set_current_dir"):
+        ctx.missing("R06.4", "posix::chdir")
     # the builder stores uid/gid in the matching config field
     for meth, field in (("ExecExt>::setuid", "setuid"), ("ExecExt>::setgid", "setgid")):
         f = prog.one(meth)
